@@ -84,8 +84,8 @@ def oracle(case, impl_lines, model_lines):
         if any(ref.node(*q).untracked for q in closure):
             continue
         memos_before, ins_before, _ = pe.parse_state(a["S"].get(i - 1, ""))
-        if k not in memos_before:
-            continue
+        if k not in memos_before or memos_before[k]["hv"] != "1":
+            continue                             # evicted since the restore (C05): has to be recomputed
         v0 = memos_before[k]["ver"]
         reads = [r for q in closure for r in ref.node(*q).reads]
         if all(ins_before[r]["ch"] <= v0 for r in reads if r in ins_before):
